@@ -1,6 +1,7 @@
 import Driver.Common
 import QlibcModel.Tree.Table
 import QlibcModel.Tree.ByteCmp
+import QlibcModel.Tree.Fault
 open Qlibc Qlibc.Tree
 
 namespace Driver.Tree
@@ -20,6 +21,7 @@ structure St where
   mode : Nat := 0
   dead : Option Fault := none     -- the C side would have crashed
   quiet : Bool := false
+  armed : Option (Nat × Bool) := none   -- `fault k` / `faultfrom k`: applies to the next library call
 
 abbrev E := Entry Bytes Bytes
 
@@ -37,7 +39,7 @@ partial def shape (root : T E) : T E → String
       ++ toString a.tid.toNat ++ " " ++ nextStr root a.next ++ " " ++ shape root r ++ ")"
 
 def stateStrQ (q : Bool) (s : Tbl Bytes Bytes) : String :=
-  s!"num={s.num} tid={s.tid.toNat} chk={s.root.check} " ++ (if q then "-" else shape s.root s.root)
+  s!"num={s.num} tid={s.tid.toNat} chk={s.root.check} live={s.live (·.isEmpty)} " ++ (if q then "-" else shape s.root s.root)
 
 def curStr (root : T E) (c : Cur) : String := s!"cur={c.tid.toNat},{nextStr root c.next}"
 
@@ -49,64 +51,84 @@ partial def walkAll (s : Tbl Bytes Bytes) (cur : Cur) (acc : List String) (fuel 
   | .ok (s', .done) => .ok (s', acc.reverse)
   | .ok (s', .item k v c) => walkAll s' c ((hx k ++ "=" ++ hx v) :: acc) (fuel - 1)
 
-def step (st : St) (ws : List String) : St × String :=
-  match st.dead with
-  | some f => (st, "dead " ++ f.name)
+def planOf (a : Option (Nat × Bool)) : Plan :=
+  match a with
+  | none => noFail
+  | some (k, from_) => fun i => k != 0 && (i == k || (from_ && i > k))
+
+def step (st0 : St) (ws : List String) : St × String :=
+  match st0.dead with
+  | some f => (st0, "dead " ++ f.name)
   | none =>
-  let cmp := cmpOf st.mode
-  let stateStr := stateStrQ st.quiet
+  let cmp := cmpOf st0.mode
+  let stateStr := stateStrQ st0.quiet
+  let plan := planOf st0.armed
+  let st := { st0 with armed := none }          -- the window of one call
   let fail (f : Fault) : St × String := ({ st with dead := some f }, faultStr f)
+  let ie : Bytes → Bool := (·.isEmpty)
   match ws with
-  | ["new", m] => ({ tbl := Tbl.init, mode := m.toNat!, quiet := st.quiet }, "ok " ++ stateStr Tbl.init)
-  | ["quiet", q] => ({ st with quiet := q != "0" }, "ok")
-  | ["dump"] => (st, "ok " ++ stateStrQ false st.tbl)
+  | ["fault", k] => ({ st0 with armed := some (k.toNat!, false) }, "ok")
+  | ["faultfrom", k] => ({ st0 with armed := some (k.toNat!, true) }, "ok")
+  | ["new", m] =>
+    if plan 1 then ({ tbl := Tbl.init, mode := m.toNat!, quiet := st.quiet }, "null live=0")
+    else ({ tbl := Tbl.init, mode := m.toNat!, quiet := st.quiet }, "ok " ++ stateStr Tbl.init)
+  | ["end"] => ({ st with tbl := Tbl.init, cur := {}, mode := 0 }, "end live=0")
+  | ["quiet", q] => ({ st0 with quiet := q != "0" }, "ok")
+  | ["dump"] => (st0, "ok " ++ stateStrQ false st.tbl)
   | ["put", k, v] =>
     match arg k, arg v with
     | .ok k, .ok v =>
-      match st.tbl.putobj cmp (·.isEmpty) k v with
-      | .ok (t, r) => ({ st with tbl := t }, s!"{r} " ++ stateStr t)
+      match st.tbl.putobjF cmp ie plan k v with
+      | .ok (t, r, n) => ({ st with tbl := t }, s!"allocs={n} {r} " ++ stateStr t)
       | .error f => fail f
     | _, _ => (st, "bad-op")
   | ["get", k] =>
     match arg k with
     | .ok k =>
-      let r := match st.tbl.getobj cmp k with
-        | some v => if v.isEmpty then "null" else "data " ++ hx v
+      let (v, n) := st.tbl.getobjF cmp ie plan k
+      let r := match v with
+        | some v => "data " ++ hx v
         | none => "null"
-      (st, s!"{r} cost={st.tbl.getCost cmp k}")
+      (st, s!"allocs={n} {r} cost={st.tbl.getCost cmp k}")
     | _ => (st, "bad-op")
   | ["rm", k] =>
     match arg k with
     | .ok k =>
       match st.tbl.removeobj cmp k with
-      | .ok (t, r) => ({ st with tbl := t }, s!"{r} " ++ stateStr t)
+      | .ok (t, r) => ({ st with tbl := t }, s!"allocs=0 {r} " ++ stateStr t)
       | .error f => fail f
     | _ => (st, "bad-op")
-  | ["size"] => (st, s!"{st.tbl.size}")
-  | ["min"] => (st, match st.tbl.findMin with | some k => "key " ++ hx k | none => "ENOENT")
-  | ["max"] => (st, match st.tbl.findMax with | some k => "key " ++ hx k | none => "ENOENT")
+  | ["size"] => (st0, s!"{st.tbl.size}")
+  | ["min"] =>
+    let (k, n) := st.tbl.findMinF plan
+    (st, s!"allocs={n} " ++ match k with | some k => "key " ++ hx k | none => if n == 0 then "ENOENT" else "ENOMEM")
+  | ["max"] =>
+    let (k, n) := st.tbl.findMaxF plan
+    (st, s!"allocs={n} " ++ match k with | some k => "key " ++ hx k | none => if n == 0 then "ENOENT" else "ENOMEM")
   | ["clear"] => let t := st.tbl.clear; ({ st with tbl := t }, "ok " ++ stateStr t)
-  | ["cursor0"] => ({ st with cur := {} }, "ok")
+  | ["cursor0"] => ({ st0 with cur := {} }, "ok")
   | ["next"] =>
-    match st.tbl.getnext st.cur with
-    | .ok (t, .done) => ({ st with tbl := t }, "done " ++ stateStr t)
-    | .ok (t, .item k v c) =>
-      ({ st with tbl := t, cur := c }, s!"item {hx k}={hx v} {curStr t.root c} " ++ stateStr t)
+    match st.tbl.getnextF ie plan st.cur with
+    | .ok (t, .done, n) => ({ st with tbl := t }, s!"allocs={n} done " ++ stateStr t)
+    | .ok (t, .enomem, n) => ({ st with tbl := t }, s!"allocs={n} enomem " ++ stateStr t)
+    | .ok (t, .item k v c, n) =>
+      ({ st with tbl := t, cur := c }, s!"allocs={n} item {hx k}={hx v} {curStr t.root c} " ++ stateStr t)
     | .error f => fail f
   | ["walk"] =>
     match walkAll st.tbl {} [] (st.tbl.num + 3) with
-    | .ok (t, items) => ({ st with tbl := t }, s!"walk {items.length}" ++ String.join (items.map (" " ++ ·)) ++ " | " ++ stateStr t)
+    | .ok (t, items) => ({ st0 with tbl := t }, s!"walk {items.length}" ++ String.join (items.map (" " ++ ·)) ++ " | " ++ stateStr t)
     | .error f => fail f
   | ["near", k] =>
     match arg k with
     | .ok k =>
-      match st.tbl.findNearest cmp k with
-      | .ok (t, none) => ({ st with tbl := t }, "ENOENT " ++ stateStr t)
-      | .ok (t, some (k', v, c)) =>
-        ({ st with tbl := t, cur := c }, s!"found {hx k'}={hx v} {curStr t.root c} " ++ stateStr t)
+      match st.tbl.findNearestF cmp ie plan k with
+      | .ok (t, some none, n) => ({ st with tbl := t }, s!"allocs={n} ENOENT " ++ stateStr t)
+      | .ok (t, none, n) => ({ st with tbl := t }, s!"allocs={n} ENOMEM " ++ stateStr t)
+      | .ok (t, some (some (k', v, c)), n) =>
+        ({ st with tbl := t, cur := c }, s!"allocs={n} found {hx k'}={hx v} {curStr t.root c} " ++ stateStr t)
       | .error f => fail f
     | _ => (st, "bad-op")
-  | _ => (st, "bad-op")
+  | _ => (st0, "bad-op")
 
 def run : IO Unit := Driver.lineLoop ({} : St) step
 
